@@ -43,14 +43,14 @@ def decodeItemsAux : Nat → List Nat → Str
   | 0, _ => []
   | _, [] => []
   | f + 1, b0 :: rest =>
-    let bad := (0x110000 + b0) :: decodeItemsAux f rest
+    let bad := fun (_ : Unit) => (0x110000 + b0) :: decodeItemsAux f rest
     let cont (b : Nat) : Bool := 0x80 ≤ b && b < 0xC0
     if b0 < 0x80 then b0 :: decodeItemsAux f rest
-    else if b0 < 0xC2 then bad
+    else if b0 < 0xC2 then bad ()
     else if b0 < 0xE0 then
       match rest with
-      | b1 :: r1 => if cont b1 then ((b0 - 0xC0) * 64 + (b1 - 0x80)) :: decodeItemsAux f r1 else bad
-      | _ => bad
+      | b1 :: r1 => if cont b1 then ((b0 - 0xC0) * 64 + (b1 - 0x80)) :: decodeItemsAux f r1 else bad ()
+      | _ => bad ()
     else if b0 < 0xF0 then
       match rest with
       | b1 :: b2 :: r2 =>
@@ -58,8 +58,8 @@ def decodeItemsAux : Nat → List Nat → Str
         let hi := if b0 = 0xED then 0xA0 else 0xC0
         if lo ≤ b1 && b1 < hi && cont b2 then
           ((b0 - 0xE0) * 4096 + (b1 - 0x80) * 64 + (b2 - 0x80)) :: decodeItemsAux f r2
-        else bad
-      | _ => bad
+        else bad ()
+      | _ => bad ()
     else if b0 < 0xF5 then
       match rest with
       | b1 :: b2 :: b3 :: r3 =>
@@ -67,9 +67,9 @@ def decodeItemsAux : Nat → List Nat → Str
         let hi := if b0 = 0xF4 then 0x90 else 0xC0
         if lo ≤ b1 && b1 < hi && cont b2 && cont b3 then
           ((b0 - 0xF0) * 262144 + (b1 - 0x80) * 4096 + (b2 - 0x80) * 64 + (b3 - 0x80)) :: decodeItemsAux f r3
-        else bad
-      | _ => bad
-    else bad
+        else bad ()
+      | _ => bad ()
+    else bad ()
 
 def decodeItems (b : Bytes) : Str := decodeItemsAux (b.length + 1) (b.map (·.toNat))
 
